@@ -178,6 +178,11 @@ fn main() {
         std::fs::write(&state_path, existing.join("\n")).unwrap();
     }
     if fail.contains(&n) || hard.contains(&n) {
+        // like the real CLIs a failing command is chatty: ~60 kB of progress output made of
+        // multi-byte characters (check marks, box drawing) on both streams, then the error
+        let noise = "\u{2713} step \u{2500}\u{2500} ok\n".repeat(2500);
+        print!("{noise}");
+        eprint!("{noise}");
         eprintln!("fakecli: scripted failure of invocation {n}");
         std::process::exit(1);
     }
